@@ -2,7 +2,7 @@ use super::utils::{IMPORTING_TAG, MIGRATING_TAG, SLOT_NUM};
 use crate::common::config::ClusterConfig;
 use serde::de::Error;
 use serde::{Deserialize, Deserializer, Serialize, Serializer};
-use std::cmp::max;
+use std::cmp::{max, min};
 use std::convert::TryFrom;
 use std::fmt;
 use std::iter::Peekable;
@@ -272,7 +272,9 @@ impl From<&RangeList> for RangeMap {
 
         let mut exists_map = vec![false; map_len];
         for range in range_list.get_ranges().iter() {
-            for slot_num in range.start()..=range.end() {
+            // Slots beyond SLOT_NUM can never be in the map. Don't loop over them.
+            let end = min(range.end(), SLOT_NUM - 1);
+            for slot_num in range.start()..=end {
                 if let Some(slot) = slot_num
                     .checked_sub(min_slot)
                     .and_then(|inner_index| exists_map.get_mut(inner_index))
